@@ -25,7 +25,28 @@ def gen_cfg(rng):
             "wd": rng.choice([1, 1, 2, 3]), "fnum": f[0], "fden": f[1]}
 
 
+def gen_aimd_regrow(rng, tier):
+    """AIMD: one thread drains the budget and is refused (the limit shrinks), then several threads deposit at the same
+    time while the limit is just below its maximum: the limit's regrowth and the balance cap race"""
+    mx = rng.choice([2, 2, 3, 4])
+    wd = rng.choice([1, 1, 2])
+    f = rng.choice([(1, 2), (3, 4), (1, 4), (0, 1)])
+    cfg = {"kind": "aimd", "min": rng.randint(0, mx - 1), "max": mx, "dep": rng.choice([1, 1, 2]), "wd": wd, "fnum": f[0], "fden": f[1]}
+    drain = "W" * (mx // wd + rng.randint(1, 2)) + "D" * rng.randint(0, mx)
+    nd = rng.choice([2, 2, 3])
+    progs = [drain] + ["D" * rng.randint(1, 2) + rng.choice(["", "W"]) for _ in range(nd)]
+    sched = [0] * steps_upper(cfg, drain)
+    rest = sum(steps_upper(cfg, p) for p in progs[1:])
+    while len(sched) < steps_upper(cfg, drain) + rest + 2:
+        sched += [rng.randint(1, nd)] * rng.choice([1, 1, 1, 2])
+    if rng.random() < 0.3:
+        cfg = dict(cfg, inner=1)
+    return mk_case(cfg, progs, sched)
+
+
 def gen(rng, tier):
+    if rng.random() < 0.15:
+        return gen_aimd_regrow(rng, tier)
     cfg = gen_cfg(rng)
     nt = rng.choice([2, 2, 3, 3, 4])
     progs = ["".join(rng.choice("WWD") for _ in range(rng.randint(1, 4))) for _ in range(nt)]
